@@ -1376,9 +1376,17 @@ class FortranFile:
                 line_no_comment = line
             # Split lines with semicolons, place the multiple lines into a stack
             if line_stripped.find(";") >= 0:
-                multi_lines.extendleft(line_stripped.split(";"))
+                # Split the original text where the copy without literals has
+                # the semicolons: character values must survive the split
+                statements, start = [], 0
+                for idx, char in enumerate(line_stripped):
+                    if char == ";":
+                        statements.append(line_no_comment[start:idx])
+                        start = idx + 1
+                statements.append(line_no_comment[start:])
+                multi_lines.extendleft(statements)
                 line = multi_lines.pop()
-                line_stripped = line
+                line_stripped = strip_strings(line, maintain_len=True)
                 line_no_comment = line
             # Test for scope end
             if file_ast.end_scope_regex is not None:
